@@ -102,7 +102,11 @@ func c20Groups(tier string) []core.Group {
 		gs = append(gs, core.Group{Key: "index/iterate/" + lay, Run: func(c *core.Ctx) {
 			for _, shape := range [][]int{{5}, {3, 4}, {2, 3, 4}, {3, 1, 2, 2}} {
 				c05Flat(c, lay, shape)
-				c05Masked(c, lay, shape)
+			}
+			if lay == gen.LC || lay == gen.LT {
+				for _, shape := range [][]int{{3}, {2, 3}} { // every mask over the elements: small shapes only
+					c05Masked(c, lay, shape)
+				}
 			}
 		}})
 	}
